@@ -176,6 +176,8 @@ theorem dijkstra_path_valid (g : DGraph) (pred : List Nat) (src : Nat) : ∀ (f 
     · simp only [hv, if_false] at h
       split at h
       · cases h
+      split at h
+      · cases h
       · rename_i e he
         have hmem : e ∈ g.edges := List.mem_of_find?_eq_some he
         have hprop := List.find?_some he
